@@ -3,7 +3,10 @@
 NOTE = (
     "Trusted base: CPython 3.12 sys.monitoring, numpy/scipy/pandas as installed, icontract wrapper "
     "mechanics, and the small reference model named in the technique field. Reach is what the "
-    "generators produce (ranges are in the evidence file); nothing is claimed for inputs outside it."
+    "generators produce (ranges are in the evidence file); nothing is claimed for inputs outside it. "
+    "Workloads are single-threaded except for the 'threads' cases (C01, C04-C09, C11-C14, C16, C19), "
+    "which run the same functions / simulations from four threads at once with a 10 microsecond "
+    "switch interval and compare every result with the same call made alone."
 )
 
 CHECKS = {
